@@ -370,7 +370,24 @@ func main() {
 		}
 		total := len(f.Expected())
 		h.Plan = genPlan(rng, total, mode)
-		run(h, a.Seed*7919+int64(i))
+		hung := false
+		{
+			done := make(chan struct{})
+			go func() { run(h, a.Seed*7919+int64(i)); close(done) }()
+			select {
+			case <-done:
+			case <-time.After(20 * time.Second):
+				hung = true
+			}
+		}
+		if hung {
+			// a call (Scan or Close) did not return: report it as an observation, then stop
+			hc := &wire.Case{Class: "hung", OracleFail: "a Scan/Close call did not return within 20 s (goroutines do not terminate)",
+				Desc: map[string]interface{}{"procs": h.Procs, "header": h.File.Header, "items": h.File.Items, "plan": h.Plan, "mode": h.Mode, "filter": h.Filter}}
+			hc.Int(9)
+			w.Add(hc)
+			break
+		}
 		c := pbfCase(h)
 		w.Add(c)
 		w.Count(fmt.Sprintf("procs:%d", bucket(procs)))
